@@ -544,6 +544,36 @@ static void run_diff(uint64_t idx, vp::Local& L) {
         }
         VP_CHECK(i == n, "diff-count", "diff iterator yields " << i << " of " << n << " versions");
     }
+    // dereferencing only some of the positions (an input iterator may be advanced past positions nobody looks at), dereferencing a
+    // position twice, post-increment and copies: what a position presents must not depend on what was looked at before
+    if (n >= 2) {
+        const uint64_t nmasks = n <= 8 ? (1ULL << n) : 64;
+        for (uint64_t k = 0; k < nmasks; ++k) {
+            const uint64_t mask = n <= 8 ? k : vp::mix64(idx * 131 + k);
+            auto it = osmium::make_diff_iterator(cbuf.cbegin<osmium::OSMObject>(), cbuf.cend<osmium::OSMObject>());
+            for (size_t i = 0; i < n; ++i) {
+                if ((mask >> (i % 64)) & 1U) {
+                    const int reps = ((mask >> ((i + 7) % 64)) & 1U) ? 2 : 1;
+                    for (int rep = 0; rep < reps; ++rep) {
+                        const osmium::DiffObject& d = *it;
+                        if (&d.curr() != want1[i].curr || &d.prev() != want1[i].prev || &d.next() != want1[i].next || d.first() != want1[i].first || d.last() != want1[i].last) {
+                            vp::fail("diff-skip", "history " + std::to_string(idx) + ": position #" + std::to_string(i) + " presents wrong prev/curr/next or first/last flags when only the positions of mask " +
+                                                      std::to_string(mask & ((1ULL << std::min<size_t>(n, 63)) - 1)) + " (bit i = position i) are dereferenced" + (rep ? " (second look at the same position)" : ""));
+                        }
+                    }
+                }
+                if ((mask >> ((i + 13) % 64)) & 1U) {
+                    auto copy = it++;
+                    if (((mask >> (i % 64)) & 1U) && &copy->curr() != want1[i].curr) vp::fail("diff-skip", "history " + std::to_string(idx) + ": the copy returned by post-increment at #" + std::to_string(i) + " presents another version");
+                } else {
+                    ++it;
+                }
+            }
+            auto end = osmium::make_diff_iterator(cbuf.cend<osmium::OSMObject>(), cbuf.cend<osmium::OSMObject>());
+            VP_CHECK(it == end, "diff-count", "diff iterator is not at the end after " << n << " increments (history " << idx << ")");
+        }
+        L.count("diff_histories_with_skipping_iteration");
+    }
     // apply_diff with 1..3 handlers
     {
         DLOG.clear();
@@ -846,6 +876,6 @@ int main(int argc, char** argv) {
                         "enumeration: all item sequences of length 0..4 over 13 item kinds (node, way, relation, area, changeset, removed node, and the seven non-entity "
                         "item types) plus seeded sequences of length 5..44, each run through 9 apply()/apply_item() forms (const/non-const buffer, Item/OSMObject/Way "
                         "iterator ranges, 1-6 handlers: static const and non-const handlers, DynamicHandler, ChainHandler, lambdas with const/non-const parameters); all "
-                        "version histories of <=4 objects x runs 1..4 x types (with and without equal ids across types) through DiffIterator and apply_diff with 1 and 3 "
+                        "version histories of <=4 objects x runs 1..4 x types (with and without equal ids across types) through DiffIterator (every position, and every subset of positions dereferenced, positions looked at twice, post-increment copies) and apply_diff with 1 and 3 "
                         "handlers; all sequences of length 0..6 over {node, way, relation, changeset, tag_list, buffer boundary} delivered by a multi-buffer source and read through InputIterator<source, T> for eight item types, apply() on the iterator range and apply_diff(source); seeded OPL files through apply(Reader) and InputIterator. Oracle: ordered call-log model. non-trivial = sequence/history with >= 2 items");
 }
